@@ -48,6 +48,15 @@ func goVal(n int) any {
 		valTab[n] = v
 		return v
 	}
+	if n == 1011 { // a non-nil CHANNEL holding two values, closed: one value, one batch item — not a stream of items
+		c := make(chan any, 2)
+		c <- 1
+		c <- "x"
+		close(c)
+		v = c
+		valTab[n] = v
+		return v
+	}
 	if n == 1009 || n == 1010 { // POINTERS to slices (a handle on a work list, not a work list): not slices — one value, one batch item
 		if n == 1009 {
 			v = &[]any{1, "x", 3.5}
